@@ -22,13 +22,13 @@ ENTRIES = [(REP, "Representation." + m) for m in (
 def run(ctx):
     ctx.r.rule("DU", "dual = compose with exactly one inverse and one "
                      "transpose")
-    R.rule_had(ctx)
-    R.rule_rep_structure(ctx)
-    R.rule_w1(ctx)
-    n1(ctx, ["geometry_tools/representation.py"])
-    CA.rule_c2(ctx, "Representation")
-    R.rule_zs1(ctx)
-    u1(ctx, ENTRIES, min_functions=30)
+    ctx.do(R.rule_had)
+    ctx.do(R.rule_rep_structure)
+    ctx.do(R.rule_w1)
+    ctx.do(n1, ["geometry_tools/representation.py"])
+    ctx.do(CA.rule_c2, "Representation")
+    ctx.do(R.rule_zs1)
+    ctx.do(u1, ENTRIES, min_functions=30)
     ctx.r.assume("the homomorphism law over all words and matrices, free "
                  "reduction and the Fox fundamental formula are numerical / "
                  "algebraic identities and not decided")
